@@ -115,6 +115,13 @@ func runRen(a []string, pixels [][2]int) (*recRasterizer, *render.Renderer) {
 	r.SetRasterizer(z, image.Rect(x0, y0, x0+w, y0+h))
 	t := a[4:]
 	for i := 0; i < len(t); {
+		if t[i] == "COPY" {
+			// the Renderer is a plain struct: a copy made after SetRasterizer is as good as the original
+			nr := *r
+			r = &nr
+			i++
+			continue
+		}
 		if t[i] == "SR" {
 			// SetRasterizer again, in the middle of the script
 			bx, by, bw, bh := intarg(t[i+1]), intarg(t[i+2]), intarg(t[i+3]), intarg(t[i+4])
